@@ -16,6 +16,9 @@ Parts
            tables whose cells hold exactly those texts: a cell that is neither 'n/a' nor empty selects the entry stored under
            its text (also when the column is spliced through a reference, and as the text of a value column); a cell that IS
            'n/a' stays absent even when the sidecar has an entry keyed 'n/a' (own narrow clause C06.cell.na_key_never_selected)
+  no-categories  categorical columns with an EMPTY categories object ("HED": {}) and columns whose cells are all unknown keys:
+           alone in the sidecar, next to other columns, referenced in curly braces; such a column selects no entry for any cell,
+           so it contributes nothing, a reference to it disappears, and the cell text never appears in the annotation
 """
 import copy
 import io
@@ -671,6 +674,15 @@ def run(w: Workload):
            "group / next to a tag in a group, value template referencing {kat}); per sidecar one stacked DataFrame with the full "
            "product of host cells (a, word, n/a, '', unknown) x kat cells (p, word, n/a, unknown) x value cells (v1, word), and "
            "every single-row and every all-rows-equal two-row table of the word rows", exhaustive=True, sidecars=len(najobs))
+    # part no-categories: categorical columns with an empty categories object / only unknown keys in the table
+    ncjobs = _no_category_jobs(quick)
+    n = _absorb(w, _par(ncjobs), counters)
+    w.part("no-categories", cases=n, bound="a column entry \"HED\": {} (with / without Description and Levels) as the only sidecar "
+           "column, next to the 5 columns of the frame, referenced in curly braces from 8 categorical entries and 4 value templates "
+           "(alone, grouped, twice, together with a second reference), and the frame's own categorical columns emptied (host, "
+           "referenced, both); columns with categories whose cells are all unknown keys; cells (first, second, n/a, '', 7, Red); "
+           "per sidecar one stacked DataFrame with the full product of the varied cells, single-row and equal-row tables, one "
+           "table with a non-default index", exhaustive=True, sidecars=len(ncjobs))
     w.bounded[-1]["checks_per_clause"] = counters
     w.exhaustive = False
     w.not_covered += ["reading the table from a .tsv/.xlsx file (tables are passed as DataFrames of strings)",
@@ -752,6 +764,90 @@ def _special_jobs():
         tables.append((order, _as_rows([r3, base], order), [1, 0]))
         jobs.append({"kind": "given", "id": 20000 + k, "sidecar": sc, "tables": tables, "rename": k % len(RENAMES),
                      "text": sc[host]["HED"]["a"] if host == "cat" else sc[host]["HED"]})
+    return jobs
+
+
+def _no_category_jobs(quick):
+    """categorical columns WITHOUT categories ("HED": {}) and columns whose cells are all unknown keys: alone, next to the
+    other columns of the frame, and referenced in curly braces.  By the statement a categorical cell contributes the entry it
+    selects - an empty categories object selects nothing for every cell text, so the column contributes nothing, a reference
+    to it disappears, and the cell text never shows up in the annotation."""
+    jobs = []
+    blk_cells = ["first", "second", NA, "", "7", "Red"]         # 'Red' / '7': texts that would be valid tags / values if copied
+
+    def add(sc, tables, text, rename=0):
+        k = len(jobs)
+        jobs.append({"kind": "given", "id": 60000 + k, "sidecar": sc, "tables": tables, "rename": rename, "text": text})
+
+    def tables_for(order, base, vary):
+        """one stacked table with the full product of the varied cells, every single-row table and every two-row table whose
+        rows are equal (the whole column then holds one text)"""
+        names = list(vary)
+        stacked = [dict(base, **dict(zip(names, combo))) for combo in itertools.product(*[vary[n_] for n_ in names])]
+        tables = [(order, _as_rows(stacked, order), None)]
+        singles = stacked if not quick else stacked[::2]
+        for row in singles:
+            tables.append((order, _as_rows([row], order), None))
+        for row in singles[::3]:
+            tables.append((order, _as_rows([row, row], order), None))
+        tables.append((order, _as_rows(stacked[:3], order), [4, 2, 9]))
+        return tables
+
+    # 1. the column is the only annotated column of the sidecar (and the only column of the sidecar)
+    for extra in ({}, {"Description": "a block column, not annotated yet"}, {"Levels": {"first": "the first block"}}):
+        sc = {"blk": dict(extra, HED={})}
+        for order in (["onset", "blk"], ["blk", "onset"], ["onset", "blk", "other"]):
+            base = {"onset": "1.5", "blk": "first", "other": "x"}
+            add(sc, tables_for(order, base, {"blk": blk_cells}), "(no categories)")
+    # 2. next to the other columns of the frame; 3. referenced from a categorical entry / a value template
+    shapes = [("cat", "A", ()), ("val", "A", ()),
+              ("cat", "A,{r}", ("blk",)), ("cat", "({r}),A", ("blk",)), ("cat", "(A,{r})", ("blk",)), ("cat", "{r}", ("blk",)),
+              ("cat", "({r})", ("blk",)), ("cat", "A,({r},{s})", ("blk", "kat")), ("cat", "(A,({r})),{s}", ("blk", "HED")),
+              ("cat", "{r},{r}", ("blk",)),
+              ("val", "A,{r}", ("blk",)), ("val", "A,({r})", ("blk",)), ("val", "(A,{r},{s})", ("blk", "wal")),
+              ("val", "A,({s},({r}))", ("blk", "kat"))]
+    for si, (host, tpl, targets) in enumerate(shapes):
+        for vi, blk_entry in enumerate(({"HED": {}}, {"Description": "not annotated yet", "Levels": {"first": "block 1"}, "HED": {}})):
+            if quick and (si + vi) % 2 and targets:
+                continue
+            sc = make_sidecar(host, tpl, targets, variant=si + vi)
+            sc["blk"] = blk_entry
+            order = [ORDERS[(si + vi) % 3][:3] + ["blk"] + ORDERS[(si + vi) % 3][3:], ["blk"] + ORDERS[si % 3], ORDERS[si % 3] + ["blk"]][(si + vi) % 3]
+            base = {"onset": "1.5", "cat": "a", "kat": "p", "val": "v1", "wal": "7", "ign": "x", "HED": "Gray", "blk": "first"}
+            vary = {"blk": blk_cells, host: CELLS[host][:3] if host == "cat" else CELLS[host]}
+            for t in targets:
+                if t != "blk":
+                    vary[t] = CELLS[t][:3]
+            add(sc, tables_for(order, base, vary), sc[host]["HED"]["a"] if host == "cat" else sc[host]["HED"], rename=(si + vi) % len(RENAMES))
+    # 4. the columns of the frame themselves without categories: the referenced column 'kat', the host column 'cat', both
+    for si, (host, tpl, targets, emptied) in enumerate([
+            ("cat", "A,{r}", ("kat",), ("kat",)), ("cat", "({r}),A", ("kat",), ("kat",)), ("val", "A,({r})", ("kat",), ("kat",)),
+            ("val", "A,{r}", ("cat",), ("cat",)), ("val", "(A,({r}),{s})", ("cat", "kat"), ("cat", "kat")), ("val", "A", (), ("cat", "kat")),
+            ("val", "({r},{s})", ("kat", "HED"), ("kat",))]):
+        sc = make_sidecar(host, tpl, targets, variant=si)
+        for c in emptied:
+            sc[c]["HED"] = {}
+        order = ORDERS[si % 3]
+        base = {"onset": "1.5", "cat": "a", "kat": "p", "val": "v1", "wal": "7", "ign": "x", "HED": "Gray"}
+        vary = {c: CELLS[c] for c in dict.fromkeys(list(emptied) + [host] + list(targets))}
+        add(sc, tables_for(order, base, vary), sc[host]["HED"]["a"] if host == "cat" and sc["cat"]["HED"] else json.dumps(sc[host]["HED"]),
+            rename=si % len(RENAMES))
+    # 5. columns WITH categories whose cells are all unknown keys (the whole column selects nothing)
+    for si, (host, tpl, targets) in enumerate([("cat", "A,{r}", ("kat",)), ("cat", "({r}),A", ("kat",)), ("val", "A,({r})", ("kat",)),
+                                               ("cat", "A", ()), ("val", "(A,{r}),{s}", ("kat", "cat"))]):
+        sc = make_sidecar(host, tpl, targets, variant=si)
+        order = ORDERS[(si + 1) % 3]
+        base = {"onset": "1.5", "cat": "a", "kat": "p", "val": "v1", "wal": "7", "ign": "x", "HED": "Gray"}
+        unknown = ["zz", "P", "Red", "7"]
+        tables = []
+        for kat_cells in itertools.product(unknown, repeat=2):
+            for cat_cells in (("a", "b"), ("zz", "A"), ("yy", "yy")):
+                rows = [dict(base, kat=kc, cat=cc, HED=CELLS["HED"][n_ % 3]) for n_, (kc, cc) in enumerate(zip(kat_cells, cat_cells))]
+                tables.append((order, _as_rows(rows, order), None))
+                tables.append((order, _as_rows(rows[:1], order), None))
+        if quick:
+            tables = tables[si % 2::2]
+        add(sc, tables, sc[host]["HED"]["a"] if host == "cat" else sc[host]["HED"], rename=si % len(RENAMES))
     return jobs
 
 
